@@ -160,6 +160,10 @@ finding(
     "P66", ["C16"], "fixed", "gen_routes raises KeyError('doc') for a model whose column before the primary key is described nowhere (no doc=, no comment=, no :cvar)", "8930c05",
     witnesses={"C16": [{"app": "app", "models": [{"cls": "User", "cols": [{"default": None, "fk": False, "name": "sv", "nodoc": True, "nullable": True, "typ": "bool"}, {"default": None, "fk": False, "name": "uq", "nodoc": False, "nullable": True, "typ": "str"}], "crud": "RD", "doc_cols": False, "emitted": False, "multi": False, "pk": "none", "pk_name": None, "tbl": "user", "tbl_kind": "titlecase"}], "prefix": "/v1/things"}]},
 )
+finding(
+    "P67", ["C14"], "fixed", "function/class parser given a LIVE object: a plain class annotation is stringified as \"<class 'int'>\" (not a type expression); builtin generics / unions lose leading characters ('uple[int, ...]', ' | None')", "eca0f79",
+    witnesses={"C14": [{"feat": ["emitted"], "kind": "live", "names": ["a"], "obj": "function", "src": "def foo(*, a: int=None):\n    \"\"\"        :param a: alpha\"\"\"\n"}]},
+)
 finding("P26", ["C07"], "open", "doctrans drops comments inside a rewritten multi-line def header")
 finding("P27", ["C07"], "open", "doctrans turns a one-line `def f(a=1): return a` into invalid Python")
 finding("P28", ["C07"], "open", "doctrans does not recognise a raw docstring r\"\"\"...\"\"\": a second string is inserted")
